@@ -273,3 +273,27 @@ def run(ctx):
                         ok = True
     ctx.check("C14.sep", pb, None, ok, "a ';' before end/catch/finally is not accepted in a block",
               expr="trailing ';' in block", site="parse_block: ';' before end/catch/finally is accepted")
+    # finally section: a statement is added to the block whether or not a ';' follows it
+    from .C05 import _as_func
+    from ..cfg import CFG
+    from ..pathcount import must_pass
+    fin = [n for n in ast.walk(pb.node) if isinstance(n, ast.If) and norm(n.test) == "lexer.matchIf('finally', 'keyword')"]
+    ok = False
+    if len(fin) == 1:
+        lp = [n for n in fin[0].body if isinstance(n, ast.While)]
+        if len(lp) == 1:
+            g2 = CFG(_as_func(lp[0].body), implicit_exc=False)
+
+            def tag(node, label):
+                a = node.ast
+                if a is not None and node.kind != "for":
+                    for x in ast.walk(a):
+                        if isinstance(x, ast.Call) and norm(x.func) == "block.addFinally":
+                            return "added"
+                return None
+
+            ok = "added" in must_pass(g2, tag).get(g2.exit.id, frozenset())
+    ctx.check("C14.sep", pb, None, ok,
+              "in a finally section a statement is kept only when a ';' follows it: the optional trailing ';' "
+              "changes which statements run", expr="finally section: ';' optional",
+              site="parse_block: finally statements are kept with or without a trailing ';'")
